@@ -27,7 +27,7 @@ var units = map[string]unit{
 	},
 	"CertFacts": {
 		Files: []string{"agglayer/types/types.go", "aggsender/types/certificate_metadata.go", "reorgdetector/reorgdetector.go",
-			"aggsender/aggsender.go", "aggsender/flows/flow_base.go", "bridgeservice/bridge.go"},
+			"aggsender/aggsender.go", "aggsender/flows/flow_base.go", "bridgeservice/bridge.go", "aggsender/flows/factory.go"},
 		Namespace: "Aggkit.Gen.CertFacts",
 		Imports:   []string{"AggkitModel.Model.GenPrelude"},
 		Custom:    certFacts,
@@ -35,7 +35,7 @@ var units = map[string]unit{
 	"SyncFacts": {
 		Files: []string{"sync/evmdownloader.go", "sync/evmdriver.go", "bridgesync/processor.go", "l1infotreesync/processor.go",
 			"l1infotreesync/processor_verifybatches.go", "l1infotreesync/processor_initl1inforootmap.go", "lastgersync/processor.go",
-			"tree/tree.go", "tree/appendonlytree.go", "tree/updatabletree.go"},
+			"tree/tree.go", "tree/appendonlytree.go", "tree/updatabletree.go", "db/tx.go"},
 		Namespace: "Aggkit.Gen.SyncFacts",
 		Imports:   []string{"AggkitModel.Model.GenPrelude"},
 		Custom:    syncFacts,
